@@ -62,6 +62,11 @@ end
 def commentBody (body : Bytes) : Prop :=
   ∀ i, i < body.length → body.getD i 0 = 45 → (body ++ [45]).getD (i + 1) 0 ≠ 45
 
+/-- body of a processing instruction the theorem covers: no `<`, and no `?>` (a `?` is not followed
+    by `>`, where the `?` of the closing `?>` counts as following the last byte) -/
+def piBody (body : Bytes) : Prop :=
+  ∀ i, i < body.length → body.getD i 0 ≠ 60 ∧ (body.getD i 0 = 63 → (body ++ [63]).getD (i + 1) 0 ≠ 62)
+
 /-! ### line and column of an offset (what an error position must denote) -/
 
 /-- state of the line count after a prefix of the text: current line (1-based), offset at which
